@@ -189,6 +189,8 @@ def gen_curve(rng, g, n):
                 tk = topcarry_k(rng, nn)
                 if tk is not None:
                     k, kc = tk, "naf-carry-out-of-top-window"
+            elif rng.randrange(5) == 0:
+                k, kc = c11.norm_boundary_k(rng, nn)
             A = g.mulgen(a)
             R = g.mulgen(r)
             s = (r + k * a) % nn
@@ -284,7 +286,7 @@ def main(argv):
         for c in curves:
             req += [c + ":mamv", c + ":mamv:u=rational", c + ":mamv:u=zero", c + ":wnaf-single-digit"]
         for c in ("ed25519", "ed448", "p256", "secp256k1", "ristretto255", "decaf448"):
-            req += [c + ":vh:true", c + ":vh:false", c + ":vh:k=rational", c + ":vh:s-off-by-one", c + ":vh:k=naf-carry-out-of-top-window"]
+            req += [c + ":vh:true", c + ":vh:false", c + ":vh:k=rational", c + ":vh:s-off-by-one", c + ":vh:k=naf-carry-out-of-top-window", c + ":vh:k=norm-at-power-of-two"]
         req += ["ed25519:vh:torsion-A-R", "ed448:vh:torsion-A-R", "jq255e:mul128:u>=2^128-64", "jq255s:mul128:u>=2^128-64",
                 "gls254:mul64mu:extreme-half", "gls254:mul64mu:equal-halves", "gls254:mul64mu:u0=0", "gls254:mamv:u=endo-half0-zero", "jq255e:mamv:u=endo-half0-zero",
                 "secp256k1:mamv:u=endo-half0-zero", "gls254:mamv:u=endo-equal-halves"]
